@@ -12,7 +12,10 @@ python3 -c "import harnesses; open('kani/src/gen.rs','w').write(harnesses.emit_r
 (cd kani && RUSTUP_TOOLCHAIN=nightly-2025-11-11 cargo build --offline --release --bin replay --target-dir ../.cache/native >/dev/null 2>&1 || true)
 (cd kani && RUSTUP_TOOLCHAIN=nightly-2025-11-11 cargo build --offline --bin mreplay --target-dir ../.cache/native >/dev/null 2>&1 || true)
 # MIR dump of /repo (second engine, mirsym): warms the dependency build of its target dir
-python3 mirsym/mirdump.py /repo .cache/mir-warm.mir .cache/mir-target >/dev/null 2>&1 || true
+# (also the dump of extensions/to_sql, whose target dir is separate, and the translator's example binary
+# that confirms SQL counterexamples natively)
+python3 mirsym/mirdump.py /repo .cache/mir-warm.mir .cache/mir-target .cache/mir-warm-sql.mir >/dev/null 2>&1 || true
+(cd /repo && cargo build --offline -p rscel-to-sql --example cel2sql --target-dir /verif/.cache/native-sql >/dev/null 2>&1 || true)
 # one tiny Kani run to confirm the tool chain works end to end
 ./check C10 --tier quick --no-evidence >/dev/null 2>&1 || true
 echo "setup done"
